@@ -12,4 +12,4 @@ CONSTANTS
   MaxTx = 100000
   Acts = {"new", "assign", "member", "container", "mutate", "storage", "ref"}
   SimDepth = 120
-INVARIANTS NoSharing NoGarbage RefsAreLive Shapes SimEmit
+INVARIANTS SimEmit
